@@ -19,3 +19,14 @@ def issue_lists_only(tier):
         if key not in seen:
             seen.add(key)
             yield {"issues_list": case["issues_list"]}
+
+
+def char_cases(tier):
+    from rt.adapters import _Obj
+    alpha = "a[~{}\x07é "
+    n = 3 if tier == "quick" else 4
+    for ln in range(n + 1):
+        for tup in itertools.product(alpha, repeat=ln):
+            for ap in (False, True):
+                for modern in (False, True):
+                    yield {"self": _Obj(_validate_characters=modern), "hed_string": "".join(tup), "allow_placeholders": ap}
